@@ -15,12 +15,13 @@ PreDesc(i)  == [e |-> "predesc", t |-> "desc", i |-> i, v |-> ""] \* a descripti
 
 Node(t, v, k) == [t |-> t, v |-> v, k |-> k]
 
-\* fold the events of a whole document into the list of top-level nodes
-BuildTree(evs, lex) ==
+\* fold the events of a whole document into the list of top-level nodes; empty is the text of inner nodes
+\* ("" when leaf texts are strings, <<>> when they are sequences of code points)
+BuildTreeE(evs, lex, empty) ==
   LET step(a, e) ==
         \* a.st = stack of open nodes, a.st[1] is the innermost; a.pend = pending description leaves
         LET st == a.st IN
-        CASE e.e = "open"  -> [st |-> <<Node(e.t, "", a.pend)>> \o st, pend |-> <<>>]
+        CASE e.e = "open"  -> [st |-> <<Node(e.t, empty, a.pend)>> \o st, pend |-> <<>>]
           [] e.e = "predesc" -> [a EXCEPT !.pend = <<Node("desc", lex[e.i], <<>>)>>]
           [] e.e = "leaf"  -> [a EXCEPT !.st = <<[st[1] EXCEPT !.k = Append(@, Node(e.t, lex[e.i], <<>>))]>> \o Tail(st)]
           [] e.e = "const" -> [a EXCEPT !.st = <<[st[1] EXCEPT !.k = Append(@, Node(e.t, e.v, <<>>))]>> \o Tail(st)]
@@ -28,8 +29,9 @@ BuildTree(evs, lex) ==
                                   j  == CHOOSE j \in 1..Len(ks) : ks[j].t = e.t /\ \A m \in (j + 1)..Len(ks) : ks[m].t # e.t
                               IN [a EXCEPT !.st = <<[st[1] EXCEPT !.k = [ks EXCEPT ![j] = Node(e.t, lex[e.i], <<>>)]]>> \o Tail(st)]
           [] e.e = "close" -> [a EXCEPT !.st = <<[st[2] EXCEPT !.k = Append(@, st[1])]>> \o Tail(Tail(st))]
-      r == FoldLeft(step, [st |-> <<Node("doc", "", <<>>)>>, pend |-> <<>>], evs)
+      r == FoldLeft(step, [st |-> <<Node("doc", empty, <<>>)>>, pend |-> <<>>], evs)
   IN r.st[1].k
+BuildTree(evs, lex) == BuildTreeE(evs, lex, "")
 
 \* events are well nested: never close more than was opened, everything closed at the end
 WellNested(evs) ==
